@@ -372,9 +372,20 @@ func (s *strictStub) UnmarshalJSON(data []byte) error {
 }
 
 func (fi *FuncInfo) argWrapper() func(reflect.Value) any {
-	strict := fi.strictFields && fi.Argument != nil && !fi.Argument.Implements(strictType)
 	names := fi.posNames // capture so the wrapper does not pin fi
 	array := len(names) != 0 && fi.allowArray
+
+	// If the argument type is itself strict, UnmarshalParams enforces strict
+	// field checking without help, unless an array stub hides the type from it.
+	var selfStrict bool
+	if fi.Argument != nil {
+		ptr := fi.Argument
+		if ptr.Kind() != reflect.Ptr {
+			ptr = reflect.PointerTo(ptr)
+		}
+		selfStrict = ptr.Implements(strictType)
+	}
+	strict := fi.Argument != nil && (fi.strictFields && !selfStrict || array && selfStrict)
 	switch {
 	case strict && array:
 		return func(v reflect.Value) any {
